@@ -1,7 +1,13 @@
 import Tv.Thm.C10
+import Tv.Thm.C10Gen
 #print axioms Tv.C10.reads_in_bounds
 #print axioms Tv.C10.writes_once
 #print axioms Tv.C10.kernel_range_in_bounds
 #print axioms Tv.C10.slices_ok
 #print axioms Tv.C10.degenerate_clean
 #print axioms Tv.C10.second_series_reads
+#print axioms Tv.C10Gen.rolling_apply_to_safe
+#print axioms Tv.C10Gen.rolling2_apply_to_safe
+#print axioms Tv.C10Gen.rolling_apply_idx_to_safe
+#print axioms Tv.C10Gen.rolling2_apply_idx_to_safe
+#print axioms Tv.C10Gen.rolling_custom_to_safe
